@@ -143,6 +143,14 @@ def check_field_trace(log, res_log, tags, mw_tags, expected_paths):
             enters = [ev[3] for ev in log if ev[0] == "mw" and ev[1] == path and ev[2] == "enter"]
             if enters != list(reversed(mw_tags)):
                 out.append("field %r: middlewares entered in order %r, documented nesting (last listed outermost) gives %r" % (path, enters, list(reversed(mw_tags))))
+    # properly nested: every field hook lies inside the execution stage of the same instrumentation
+    for tag in tags:
+        st = [i for i, ev in enumerate(log) if ev[0] == "stage" and ev[1] == "execution" and ev[3] == tag]
+        if len(st) == 2:
+            outside = [ev for i, ev in enumerate(log) if ev[0] == "field" and ev[3] == tag and not (st[0] < i < st[1])]
+            if outside:
+                out.append("field hook %s of %r (instrumentation %r) fired outside the execution stage (on_execution_start at event %d, on_execution_end at event %d)"
+                           % (outside[0][2], outside[0][1], tag, st[0], st[1]))
     # (introspection fields are resolved fields too, but the reference executor delegates them: not compared here)
     extra = {ev[1] for ev in log if ev[0] == "field" and not any(isinstance(k, str) and k.startswith("__") for k in ev[1])} - set(expected_paths)
     if extra:
